@@ -802,3 +802,136 @@ def project_fn(cells):
         out.append({"acq": acq, "guards": guards, "actions": tuple((a, tuple(args)) for a, args in c["actions"]),
                     "ret": c["value"], "next": "-", "path_select": {}})
     return out
+
+
+# --------------------------------------------------------------------------- pairwise comparison (large functions)
+def _split_top(s, sep):
+    out, depth, cur = [], 0, ""
+    for ch in s:
+        if ch in "([{":
+            depth += 1
+        elif ch in ")]}":
+            depth -= 1
+        if ch == sep and depth == 0:
+            out.append(cur)
+            cur = ""
+        else:
+            cur += ch
+    out.append(cur)
+    return out
+
+
+def _parse_pat(s):
+    """pattern text (flat.showpat) -> ('alt',[..]) | ('ctor',name,[args]) | ('wild',) | ('lit',text)"""
+    s = s.strip()
+    alts = _split_top(s, "|")
+    if len(alts) > 1:
+        return ("alt", [_parse_pat(a) for a in alts])
+    if s in ("_", ".."):
+        return ("wild",)
+    for o, c in (("(", ")"), ("{", "}")):
+        i = s.find(o)
+        if i > 0 and s.endswith(c) and (s[:i].replace("_", "").replace(":", "").isalnum()):
+            name = s[:i]
+            inner = s[i + 1:-1]
+            args = [a for a in _split_top(inner, ",") if a != ""]
+            if o == "{":
+                fields = {}
+                for a in args:
+                    if ":" in a:
+                        k, v = a.split(":", 1)
+                        fields[k.strip()] = _parse_pat(v)
+                return ("struct", name, fields)
+            return ("ctor", name, [_parse_pat(a) for a in args])
+    if s.startswith("(") and s.endswith(")"):
+        return ("ctor", "", [_parse_pat(a) for a in _split_top(s[1:-1], ",")])
+    return ("lit", s)
+
+
+def pats_disjoint(a, b):
+    if a[0] == "alt":
+        return all(pats_disjoint(x, b) for x in a[1])
+    if b[0] == "alt":
+        return all(pats_disjoint(a, x) for x in b[1])
+    if a[0] == "wild" or b[0] == "wild":
+        return False
+    if a[0] == "lit" and b[0] == "lit":
+        if ".." in a[1] or ".." in b[1]:
+            return False
+        return a[1] != b[1]
+    if a[0] != b[0]:
+        # a literal constructor name vs a constructor with arguments
+        na = a[1] if a[0] != "lit" else a[1]
+        nb = b[1] if b[0] != "lit" else b[1]
+        return na != nb and na[:1].isupper() and nb[:1].isupper()
+    if a[0] == "ctor":
+        if a[1] != b[1]:
+            return True
+        if len(a[2]) != len(b[2]):
+            return False
+        return any(pats_disjoint(x, y) for x, y in zip(a[2], b[2]))
+    if a[0] == "struct":
+        if a[1] != b[1]:
+            return True
+        return any(k in b[2] and pats_disjoint(v, b[2][k]) for k, v in a[2].items())
+    return False
+
+
+def _guard_conflict(g1, g2):
+    """two guard valuations cannot hold together"""
+    for k, v in g1.items():
+        if k in g2 and g2[k] != v:
+            return True
+    # mutually exclusive pattern tests on the same scrutinee
+    pos1 = [k for k, v in g1.items() if v and " matches " in k]
+    pos2 = [k for k, v in g2.items() if v and " matches " in k]
+    def parts(lbl):
+        inst = "1"
+        if "#" in lbl and lbl.rsplit("#", 1)[1].isdigit():
+            lbl, inst = lbl.rsplit("#", 1)
+        sc, pt = lbl.split(" matches ", 1)
+        return sc, pt, inst
+
+    for a in pos1:
+        sa, pa, ia = parts(a)
+        for b in pos2:
+            sb, pb, ib = parts(b)
+            if sa == sb and ia == ib and pa != pb and pats_disjoint(_parse_pat(pa), _parse_pat(pb)):
+                return True
+    return False
+
+
+def compare_pairwise(ref_cells, new_cells, report):
+    """every pair of cells that can apply to the same situation must give the same result; every cell must have a partner"""
+    n = 0
+    for which, A, B in (("reference", ref_cells, new_cells), ("code", new_cells, ref_cells)):
+        for a in A:
+            partners = 0
+            for b in B:
+                if acq_key(a) != acq_key(b):
+                    continue
+                ia, ib = acq_intervals(a), acq_intervals(b)
+                inter = [(max(x[0], y[0]), min(x[1], y[1])) for x, y in zip(ia, ib)]
+                if any(lo > hi for lo, hi in inter):
+                    continue
+                if _guard_conflict(a["guards"], b["guards"]):
+                    continue
+                partners += 1
+                if which == "code":
+                    continue
+                pts = [None]
+                if inter:
+                    lo, hi = inter[0]
+                    pts = [chr(x) for x in sorted({lo, hi, (lo + hi) // 2}) if not (0xD800 <= x <= 0xDFFF)]
+                for ch in pts:
+                    n += 1
+                    ra, rb = result_at(a, ch), result_at(b, ch)
+                    if ra != rb:
+                        report("cell-differs", "under %s%s: reference {%s}  code {%s}" % (
+                            {k: v for k, v in list(a["guards"].items())[:8]}, (" at %r" % ch) if ch else "", render_result(ra)[:500], render_result(rb)[:500]))
+                        return n
+            if partners == 0:
+                report("path-missing" if which == "reference" else "path-new", "%s path %s %s -> %s has no counterpart" % (
+                    which, list(acq_key(a)), {k: v for k, v in list(a["guards"].items())[:8]}, render_result(result_at(a, None))[:300]))
+                return n
+    return n
